@@ -401,7 +401,8 @@ def try_certify(constraints, bad, timeout_ms=4000, budget_s=6.0, tag=None):
         s.set('timeout', timeout_ms)
         s.add(z3.Not(ident))
         t1 = time.time()
-        r = s.check()
+        from . import solve as _sv
+        r = _sv.guarded_check(s, timeout_ms)
         STATS['z3_time'] += time.time() - t1
         STATS['time'] += time.time() - t0
         if r == z3.unsat:
